@@ -187,6 +187,24 @@ PROPS['C10'] = {
     ],
 }
 
+PROPS['C19'] = {
+    'title': 'Coordinate traversal, mapping and bounding boxes are mutually consistent',
+    'level': 'proof',
+    'verus': ['c19_minmax'],
+    'kani_extra': ['--no-memory-safety-checks', '--no-overflow-checks', '--no-assertion-reach-checks'],
+    'kani': [
+        ('geo', 'c19.rs', r'^c19_k_(point_line_rect_triangle|triangle_map_main|triangle_map_finding_reflection|min_polygon_counts|min_polygon_map)$', 'bounded', 'quick'),
+        ('geo', 'c19.rs', r'^c19_k_linestring$', 'bounded', 'thorough'),
+    ],
+    'twins': {'C19.V.get_min_max': r'^c19_k_point_line_rect_triangle'},
+    'trusted': ['bounded harnesses use concrete pairwise-distinct coordinates for traversal / mapping code (parametric in the coordinate values) and small concrete container sizes',
+                'Kani default memory-safety / overflow checks are switched off for these harnesses (only the contract assertions are checked)'],
+    'undecided_clauses': [
+        'GeometryCollection and Geometry-enum traversals, bounding boxes and try_map error propagation: CBMC does not finish symbolic execution of the recursive Geometry <-> GeometryCollection delegation within 300-900 s even on two concrete points; NOT under contract',
+        'MultiPoint / MultiLineString / MultiPolygon traversals, extremes',
+    ],
+}
+
 NOT_APPLICABLE = {
     'C16': 'every clause is an identity between compositions of sin/cos/atan2/asin/sqrt/tan/ln in f64 (or calls into geographiclib-rs); Verus leaves float arithmetic uninterpreted and CBMC models libm as nondeterministic, so no contract stronger than "returns an f64" is provable',
     'C20': '2-safety hyper-property over runs, thread-pool sizes and hash seeds; Kani has no threads and compiles RandomState/rayon away, Verus cannot parse the rayon/hashbrown code; no contract within reach can express it',
